@@ -483,9 +483,14 @@ def main():
     ck.phase("impl")
     with_model = [i for i, c in enumerate(cases) if c.term is not None]
     try:
-        mres = ck.run_model_terms(["GenApiParse"], [cases[i].term for i in with_model], per_eval=40)
+        try:
+            mres = ck.run_model_terms(["GenApiParse"], [cases[i].term for i in with_model], per_eval=40)
+        except vplib.MachineryError:
+            # a coqc shard can be killed on an overloaded machine: one more attempt with fewer processes
+            ck.notes.append("model evaluation retried with 4 processes")
+            mres = ck.run_model_terms(["GenApiParse"], [cases[i].term for i in with_model], per_eval=40, jobs=4)
     except vplib.MachineryError as e:
-        path = ck.write_replay({"kind": "model", "property": "C17", "unchecked": "model/GenApiParse.v", "why": str(e)[-3000:]})
+        path = ck.write_replay({"kind": "model", "property": "C17", "unchecked": "model/GenApiParse.v", "why": str(e)[:1500] + " ... " + str(e)[-1500:]})
         ck.violations.append((path, True, "the model cannot be evaluated on the generated documents"))
         ck.finish()
     ck.phase("model")
